@@ -84,7 +84,7 @@ theorem auHeader_length (h : H) : (auHeader h).length = 24 := by
 
 theorem peakChunk_length (h : H) (ps : List Peak) : (peakChunk h ps).length = 16 + 8 * ps.length := by
   unfold peakChunk
-  have : ∀ (l : List Peak), (l.flatMap fun p => u32 h.big (Float.f64to32 p.value) ++ u32 h.big p.position).length = 8 * l.length := by
+  have : ∀ (l : List Peak), (l.flatMap fun p => u32 h.big (wrF32 (Float.f64to32 p.value)) ++ u32 h.big p.position).length = 8 * l.length := by
     intro l
     induction l with
     | nil => rfl
